@@ -10,6 +10,7 @@ Level: exploration (TLC-generated cases from an explicit TLA+ data model; laws e
     as Recon text in several styles, and has the harness (h_core/src/bin/form.rs) run the REAL code:
     as_value / into_value / try_from_value / try_convert, the three Recon printers, both reading
     paths (parse_recognize::<T> and parse -> Value -> try_from_value), MessagePack write / read.
+    (Every rendered instance is also sent once with its last delimiter cut off: an unparseable text.)
  3. The observations are written as a table; TLC (specs/MC_FormDoc.tla) evaluates the laws of the
     property (FormDoc.tla section 7) on every row.  A row that breaks a law is a VIOLATION unless it
     matches an open known finding.  A row on which both real reading paths agree with each other but
@@ -25,19 +26,27 @@ MEMBER, BIN = "h_core", "form"
 # ----------------------------------------------------------------------------- configuration
 
 GROUPS = 4
+ALL_STYLES = ("std", "braced", "ws", "parens", "bare")
 
 
-def tier_cfg(tier):
+def plan(tier, keys):
+    """generation jobs: (name, battery types, Scope, MaxMut, MutDepth, styles, sigmas)"""
+    jobs = []
     if tier == "quick":
-        return dict(scope=0, max_mut=1, mut_depth=2, sigmas=1, styles=("std", "braced", "ws", "parens", "bare"), chunk=60000)
-    return dict(scope=1, max_mut=2, mut_depth=2, sigmas=2, styles=("std", "braced", "ws", "parens", "bare"), chunk=150000,
-                two_level_keys=THOROUGH_TWO_LEVEL)
+        for g in range(GROUPS):      # interleaved so that the heavy types are spread over the groups
+            jobs.append(dict(name="gen%d" % g, keys=keys[g::GROUPS], scope=0, max_mut=1, mut_depth=2, styles=ALL_STYLES, sigmas=1))
+        return jobs
+    for g in range(GROUPS):
+        jobs.append(dict(name="gen%d" % g, keys=keys[g::GROUPS], scope=1, max_mut=1, mut_depth=3, styles=ALL_STYLES, sigmas=2))
+    # second-order mutants (two operators in a row), except for the types with model-value fields (too many)
+    two = [k for k in keys if k not in ("WithValue", "BodyValue", "HdrValue", "ModelVal", "VecNest", "Coll")]
+    n2 = 2 * GROUPS
+    for g in range(n2):
+        jobs.append(dict(name="gen2_%d" % g, keys=two[g::n2], scope=0, max_mut=2, mut_depth=1, styles=("std", "ws"), sigmas=1))
+    return jobs
 
 
-# second-order mutants only for the types where the interplay of operators is interesting (cost)
-THOROUGH_TWO_LEVEL = ["Two", "Tup", "Renamed", "WithAttr", "TwoAttrs", "HdrBody", "HdrSlots", "HdrOpt", "HdrBoth", "HdrVec",
-                      "HdrNest", "BodyVec", "BodyStr", "BodyNest", "Opt", "TagField", "Shape", "OpSI", "ConvEnum", "NewT",
-                      "WithValue", "BodyValue", "HdrValue", "OptI", "PairIS", "VecOptI", "Skippy", "SkipTup"]
+CHUNK = 150000
 
 # ----------------------------------------------------------------------------- concretisation pools
 
@@ -268,6 +277,8 @@ def all_keys():
 
 
 GEN_INVS = ["WellFormed", "ReadInvertsRender", "WrongTagRejected", "Emit"]
+MUT_OPS = ["dropItem", "dupItem", "swapItems", "dropAttr", "dupAttr", "swapAttrs", "wrongTag", "extraAttr", "extraItem", "renameKey",
+           "unslot", "slotify", "wrongKind", "wrap", "unwrap"]
 
 
 def defects():
@@ -279,73 +290,44 @@ def tla_set(xs):
     return core.Raw("{" + ", ".join('"%s"' % x for x in sorted(xs)) + "}")
 
 
-def run_gen(wd, name, keys, scope, max_mut, mut_depth, res, errs, excused=None):
+def run_gen(wd, job, res, errs, excused=None):
     try:
-        c = core.cfg(constants={"Scope": scope, "Defects": tla_set(defects()), "Excused": tla_set(defects() if excused is None else excused),
-                                "Keys": set(keys), "MaxMut": max_mut, "MutDepth": mut_depth},
+        c = core.cfg(constants={"Scope": job["scope"], "Defects": tla_set(defects()),
+                                "Excused": tla_set(defects() if excused is None else excused),
+                                "Keys": set(job["keys"]), "MaxMut": job["max_mut"], "MutDepth": job["mut_depth"]},
                      invariants=GEN_INVS, view="View")
         # -coverage makes TLC pathologically slow on the recursive operators of this module: off; the
         # per-operator statistics are computed from the DOC lines instead
-        r = core.run_tlc("Gen_FormDoc", c, os.path.join(wd, name), workers=1, coverage=False, timeout=1500, xmx="6g")
-        res[name] = r
+        r = core.run_tlc("Gen_FormDoc", c, os.path.join(wd, job["name"]), workers=1, coverage=False, timeout=1500, xmx="6g",
+                         keep_tagged_raw=True)
+        r.stdout = ""
+        res[job["name"]] = r
     except Exception as ex:  # noqa
         errs.append(ex)
 
 
-def generate(wd, tier, out):
-    k = tier_cfg(tier)
-    keys = all_keys()
-    jobs = []
-    per = (len(keys) + GROUPS - 1) // GROUPS
-    # interleave so that the heavy types are spread over the groups
-    for g in range(GROUPS):
-        jobs.append(("gen%d" % g, keys[g::GROUPS], k["max_mut"] if tier == "quick" else 1))
-    if tier != "quick":
-        two = k["two_level_keys"]
-        for g in range(GROUPS):
-            jobs.append(("gen2_%d" % g, two[g::GROUPS], 2))
-    res, errs = {}, []
-    pending = list(jobs)
-    while pending:
-        batch, pending = pending[:GROUPS], pending[GROUPS:]
-        th = [threading.Thread(target=run_gen, args=(wd, n, ks, k["scope"], mm, k["mut_depth"], res, errs)) for n, ks, mm in batch]
+def in_threads(fn, argss, width=GROUPS):
+    for b in range(0, len(argss), width):
+        th = [threading.Thread(target=fn, args=a) for a in argss[b:b + width]]
         for t in th:
             t.start()
         for t in th:
             t.join()
-    if errs:
-        raise errs[0]
-    # the excuses are keyed on open findings: without them the model must still exhibit the finding
+
+
+def probe_excuses(wd, out):
+    """the excuses of ReadInvertsRender are keyed on open findings: without them the model must still exhibit the finding"""
     probes = {"F1": ["AttrMap"], "F3": ["BodyValue"]}
     pres, perr = {}, []
-    th = [threading.Thread(target=run_gen, args=(wd, "probe" + f, probes[f], k["scope"], 0, 0, pres, perr, set()))
-          for f in sorted(defects()) if f in probes]
-    for t in th:
-        t.start()
-    for t in th:
-        t.join()
+    in_threads(run_gen, [(wd, dict(name="probe" + f, keys=probes[f], scope=0, max_mut=0, mut_depth=0), pres, perr, set())
+                         for f in sorted(defects()) if f in probes])
     if perr:
         raise perr[0]
-    for n, r in pres.items():
+    for n, r in sorted(pres.items()):
         if r.ok:
             out.notes.append("model: finding %s is excused in ReadInvertsRender but the model no longer exhibits it" % n[5:])
         else:
             out.add(**{"model_exhibits_" + n[5:]: "TLC: invariant %s violated without the excuse" % r.violated})
-    docs, schema = {}, None
-    stats = dict(states=0, generated=0, wall=0.0)
-    for n, ks, mm in jobs:
-        r = res[n]
-        if not r.ok:
-            raise core.ToolError("the document model violates its own invariant %s (%s):\n%s" % (r.violated, n, r.counterexample[:3000]))
-        schema = schema or r.tagged["SCHEMA"][0]
-        stats["states"] += r.distinct
-        stats["generated"] += r.generated
-        stats["wall"] = max(stats["wall"], r.wall)
-        for d in r.tagged["DOC"]:
-            key = (d["ty"], canon(d["doc"]), canon(d["inst"]) if not d["ops"] else "")
-            if key not in docs or len(d["ops"]) < len(docs[key]["ops"]):
-                docs[key] = d
-    return list(docs.values()), Schema(schema), stats
 
 
 # ----------------------------------------------------------------------------- step 2: the real code
@@ -353,6 +335,7 @@ def generate(wd, tier, out):
 def harness(wd, cases, tag, parts=4):
     """run the harness on the cases, split over `parts` processes."""
     n = len(cases)
+    parts = max(1, min(parts, n))
     res = [None] * parts
     errs = []
 
@@ -367,14 +350,12 @@ def harness(wd, cases, tag, parts=4):
             if len(r) != len(part):
                 raise core.ToolError("harness answered %d of %d cases" % (len(r), len(part)))
             res[i] = r
+            os.remove(inp)
+            os.remove(outp)
         except Exception as ex:  # noqa
             errs.append(ex)
 
-    th = [threading.Thread(target=work, args=(i,)) for i in range(parts)]
-    for t in th:
-        t.start()
-    for t in th:
-        t.join()
+    in_threads(work, [(i,) for i in range(parts)], width=parts)
     if errs:
         raise errs[0]
     out = [None] * n
@@ -389,137 +370,55 @@ def harness(wd, cases, tag, parts=4):
     return out
 
 
-class Interner:
-    def __init__(self):
-        self.ids = {}
-
-    def id(self, j):
-        s = canon(j)
-        if s not in self.ids:
-            self.ids[s] = len(self.ids) + 1
-        return self.ids[s]
-
-
 def acc(o):
     return bool(o and o.get("ok"))
-
-
-def build_cases(docs, schema, tier):
-    k = tier_cfg(tier)
-    cases = []
-    seed = core.seed()
-    for di, d in enumerate(docs):
-        d["_i"] = di
-        for si in range(k["sigmas"]):
-            sg = Sigma("%d/%d/%d" % (seed, di, si))
-            if not d["ops"]:
-                x = schema.key(d["ty"], d["inst"], sg)
-                cases.append({"id": len(cases), "op": "inst", "ty": d["ty"], "x": x, "_doc": di, "_sg": si})
-            seen = set()
-            for st in k["styles"]:
-                text = render(d["doc"], sg, st)
-                if text in seen:
-                    continue
-                seen.add(text)
-                cases.append({"id": len(cases), "op": "doc", "ty": d["ty"], "text": text, "built": built(d["doc"], sg),
-                              "_doc": di, "_sg": si, "_style": st})
-    return cases
 
 
 def strip(c):
     return {k: v for k, v in c.items() if not k.startswith("_")}
 
 
+def build_cases(docs, schema, job, seed, base):
+    cases = []
+    for di, d in enumerate(docs):
+        for si in range(job["sigmas"]):
+            sg = Sigma("%d/%s/%d" % (seed, d["_h"], si))
+            if not d["ops"]:
+                x = schema.key(d["ty"], d["inst"], sg)
+                cases.append({"id": len(cases), "op": "inst", "ty": d["ty"], "x": x, "_doc": di, "_sg": si})
+            seen = set()
+            for st in job["styles"]:
+                text = render(d["doc"], sg, st)
+                if text in seen:
+                    continue
+                seen.add(text)
+                cases.append({"id": len(cases), "op": "doc", "ty": d["ty"], "text": text, "built": built(d["doc"], sg),
+                              "_doc": di, "_sg": si, "_style": st})
+                if st == "std" and not d["ops"] and text[-1:] in ("}", ")"):
+                    # an unbalanced text (not a model value at all): neither path may accept it
+                    cases.append({"id": len(cases), "op": "doc", "ty": d["ty"], "text": text[:-1], "_doc": di, "_sg": si, "_style": "cut"})
+    return cases
+
+
 # ----------------------------------------------------------------------------- step 3: the table and the laws
 
-def make_rows(docs, schema, cases, results, tier):
-    """rows for MC_FormDoc + side information per row (for reports, drift, known findings)."""
-    seed = core.seed()
-    ids = Interner()
-    rows, info = [], []
-    drift = []
-    unfaithful_prints = []
-    stats = collections.Counter()
+class Ids:
+    """value identities within one row (the laws only compare values of the same row)"""
 
-    def add(row, inf):
-        row["id"] = len(rows) + 1
-        rows.append(row)
-        info.append(inf)
+    def __init__(self):
+        self.m = {}
 
-    for c, r in zip(cases, results):
-        d = docs[c["_doc"]]
-        sg = Sigma("%d/%d/%d" % (seed, c["_doc"], c["_sg"]))
-        if r.get("panic"):
-            # a panic in the code under test: breaks every law of the row
-            if c["op"] == "inst":
-                add({"kind": "inst", "rt": False, "rt_eq": False, "rtc": False, "rtc_eq": False, "mp": False, "mp_eq": False},
-                    {"case": strip(c), "panic": r["panic"], "doc": d})
-            else:
-                add({"kind": "doc", "p": True, "d": True, "m": False, "c": False, "vd": 0, "vm": 0, "vc": 0, "isx": False, "vx": 0},
-                    {"case": strip(c), "panic": r["panic"], "doc": d})
-            stats["panics"] += 1
-            continue
-        if c["op"] == "inst":
-            x = r["x"]
-            vx = ids.id(x)
-            eq = lambda o: acc(o) and ids.id(o["v"]) == vx
-            add({"kind": "inst", "rt": acc(r["rt"]), "rt_eq": eq(r["rt"]), "rtc": acc(r["rtc"]), "rtc_eq": eq(r["rtc"]) and r["into_same"],
-                 "mp": acc(r["mp"]), "mp_eq": eq(r["mp"]) and r.get("mp_rest", 0) == 0},
-                {"case": strip(c), "obs": {kk: r.get(kk) for kk in ("rt", "rtc", "mp", "into_same", "asv", "mp_as_model", "print_model_same")},
-                 "doc": d})
-            stats["inst_rows"] += 1
-            # M: the reference writer against as_value
-            if canon(norm_model(r["asv"])) != canon(norm_model(built(d["doc"], sg))):
-                drift.append({"what": "Render != as_value", "ty": d["ty"], "x": x, "as_value": r["asv"], "render": built(d["doc"], sg)})
-            if not r.get("print_model_same", True):
-                stats["typed_print_differs_from_model_print"] += 1
-            mm = r.get("mp_as_model")
-            if mm is not None and not (mm.get("ok") and mm.get("eq")):
-                stats["msgpack_bytes_not_the_model"] += 1
-            # the printers' outputs: document rows that must read back as x on both paths
-            for pi, pr in enumerate(r["printed"]):
-                faithful = bool(pr.get("val_is_asv"))
-                if not faithful:
-                    stats["printer_output_not_the_model"] += 1
-                    unfaithful_prints.append({"ty": c["ty"], "x": x, "printer": ("std", "compact", "pretty")[pi], "text": pr["text"]})
-                add(doc_row(pr, ids, faithful, vx),
-                    {"case": {"op": "doc", "ty": c["ty"], "text": pr["text"]}, "printer": ("std", "compact", "pretty")[pi], "x": x,
-                     "inst_case": strip(c),
-                     "obs": {kk: pr.get(kk) for kk in ("direct", "via", "conv", "mp", "parse_ok", "parse_err")}, "doc": d})
-                stats["printed_rows"] += 1
-        else:
-            row = doc_row(r, ids, False, 0)
-            faithful = bool(r.get("built_is_parsed"))
-            add(row, {"case": strip(c), "style": c["_style"], "faithful": faithful,
-                      "obs": {kk: r.get(kk) for kk in ("direct", "via", "conv", "mp", "parse_ok", "parse_err", "built")}, "doc": d})
-            stats["doc_rows"] += 1
-            stats["faithful" if faithful else "unfaithful_rendering"] += 1
-            if row["p"] and row["d"] and row["m"]:
-                stats["accepted_by_both"] += 1
-            elif row["p"] and not row["d"] and not row["m"]:
-                stats["rejected_by_both"] += 1
-            # the bridge fed from the value built without any text
-            if faithful and (acc(r["built"]) != row["m"] or (row["m"] and ids.id(r["built"]["v"]) != row["vm"])):
-                drift.append({"what": "try_from_value(built) != try_from_value(parsed)", "ty": d["ty"], "text": c["text"]})
-            # M: the reference reader
-            if faithful and row["d"] == row["m"] and (not row["d"] or row["vd"] == row["vm"]):
-                exp = d["exp"]
-                if exp["ok"] != row["m"]:
-                    drift.append({"what": "Read expects %s, both real paths %s" % ("accept" if exp["ok"] else "reject", "accept" if row["m"] else "reject"),
-                                  "ty": d["ty"], "text": c["text"], "ops": d["ops"], "obs": r.get("via"), "doc": d["doc"]})
-                elif exp["ok"]:
-                    ex = schema.key(d["ty"], exp["x"], sg)
-                    if ids.id(ex) != row["vm"]:
-                        drift.append({"what": "Read expects another value", "ty": d["ty"], "text": c["text"], "ops": d["ops"],
-                                      "expected": ex, "obs": r["via"].get("v")})
-            # the third source of events (informative): MessagePack of the parsed value
-            if row["p"] and (acc(r.get("mp")) != row["m"] or (row["m"] and ids.id(r["mp"]["v"]) != row["vm"])):
-                stats["msgpack_reader_differs_from_bridge"] += 1
-    return rows, info, drift, stats, unfaithful_prints
+    def id(self, j):
+        s = canon(j)
+        if s not in self.m:
+            self.m[s] = len(self.m) + 1
+        return self.m[s]
 
 
-def doc_row(r, ids, isx, vx):
-    """isx: the text is a printer's output that parses to exactly as_value(x), x having id vx"""
+def doc_row(r, isx, x):
+    """isx: the text is a printer's output that parses to exactly as_value(x)"""
+    ids = Ids()
+    vx = ids.id(x) if isx else 0
     p = bool(r.get("parse_ok"))
     d, m, c = acc(r.get("direct")), acc(r.get("via")), acc(r.get("conv"))
     return {"kind": "doc", "p": p, "d": d, "m": m, "c": c,
@@ -527,31 +426,149 @@ def doc_row(r, ids, isx, vx):
             "vc": ids.id(r["conv"]["v"]) if c else 0, "isx": isx, "vx": vx}
 
 
-def evaluate(wd, rows, tier):
-    """TLC evaluates the laws on every row (chunks, at most 4 JVMs at a time)."""
-    k = tier_cfg(tier)
-    chunks = [rows[i:i + k["chunk"]] for i in range(0, len(rows), k["chunk"])]
+def inst_row(r):
+    ids = Ids()
+    vx = ids.id(r["x"])
+    eq = lambda o: acc(o) and ids.id(o["v"]) == vx
+    return {"kind": "inst", "rt": acc(r["rt"]), "rt_eq": eq(r["rt"]), "rtc": acc(r["rtc"]), "rtc_eq": eq(r["rtc"]) and bool(r["into_same"]),
+            "mp": acc(r["mp"]), "mp_eq": eq(r["mp"]) and r.get("mp_rest", 0) == 0}
+
+
+PANIC_INST = {"kind": "inst", "rt": False, "rt_eq": False, "rtc": False, "rtc_eq": False, "mp": False, "mp_eq": False}
+PANIC_DOC = {"kind": "doc", "p": True, "d": True, "m": False, "c": False, "vd": 0, "vm": 0, "vc": 0, "isx": False, "vx": 0}
+PRINTERS = ("std", "compact", "pretty")
+
+
+class Table:
+    """the observation table: rows go to chunk files for TLC; per row only what is needed to report it is kept"""
+
+    def __init__(self, wd):
+        self.wd = wd
+        self.n = 0
+        self.chunks = []          # (path, first id, count)
+        self.buf = []
+        self.info = []            # per row: (kind, ty, subject, printer index / style, ops)
+        self.drift = []
+        self.drift_n = collections.Counter()
+        self.stats = collections.Counter()
+        self.unfaithful = {}
+        self.nontrivial = set()
+        self.last_op = collections.Counter()
+        self.samples = {}
+
+    def add(self, row, inf):
+        self.n += 1
+        row["id"] = self.n
+        self.buf.append(row)
+        self.info.append(inf)
+        if len(self.buf) >= CHUNK:
+            self.flush()
+
+    def flush(self):
+        if self.buf:
+            p = os.path.join(self.wd, "table%d.ndjson" % len(self.chunks))
+            core.write_ndjson(p, self.buf)
+            self.chunks.append((p, self.buf[0]["id"], len(self.buf)))
+            self.buf = []
+
+    def note_drift(self, what, ty, detail):
+        self.drift_n[(what, ty)] += 1
+        if len(self.drift) < 300:
+            detail.update({"what": what, "ty": ty})
+            self.drift.append(detail)
+
+    def digest(self, *parts):
+        return hashlib.md5("\x00".join(parts).encode()).digest()
+
+    def add_batch(self, docs, schema, cases, results, seed):
+        st = self.stats
+        for d in docs:
+            self.last_op[d["ops"][-1] if d["ops"] else "Pick"] += 1
+        for c, r in zip(cases, results):
+            d = docs[c["_doc"]]
+            ty = c["ty"]
+            ops = tuple(d["ops"])
+            sg = Sigma("%d/%s/%d" % (seed, d["_h"], c["_sg"]))
+            if r.get("panic"):
+                st["panics"] += 1
+                self.add(dict(PANIC_INST if c["op"] == "inst" else PANIC_DOC),
+                         (c["op"], ty, c["x"] if c["op"] == "inst" else c["text"], "PANIC " + str(r["panic"]), ops))
+                continue
+            if c["op"] == "inst":
+                x = r["x"]
+                self.add(inst_row(r), ("inst", ty, c["x"], None, ops))
+                self.nontrivial.add(self.digest("inst", ty, canon(c["x"])))
+                st["inst_rows"] += 1
+                if ty not in self.samples or ty == "HdrBoth":
+                    self.samples[ty] = {"type": ty, "instance": c["x"], "as_value": r["asv"]}
+                # M: the reference writer against as_value
+                if canon(norm_model(r["asv"])) != canon(norm_model(built(d["doc"], sg))):
+                    self.note_drift("Render != as_value", ty, {"x": x, "as_value": r["asv"], "render": built(d["doc"], sg)})
+                if not r.get("print_model_same", True):
+                    st["typed_print_differs_from_model_print"] += 1
+                mm = r.get("mp_as_model")
+                if mm is not None and not (mm.get("ok") and mm.get("eq")):
+                    st["msgpack_of_typed_value_is_not_the_model"] += 1
+                # the printers' outputs: document rows that must read back as x on both paths
+                for pi, pr in enumerate(r["printed"]):
+                    faithful = bool(pr.get("val_is_asv"))
+                    if not faithful:
+                        st["printer_output_not_the_model"] += 1
+                        self.unfaithful.setdefault(ty, {"ty": ty, "x": x, "printer": PRINTERS[pi], "text": pr["text"]})
+                    self.add(doc_row(pr, faithful, x), ("printed", ty, c["x"], pi, ops))
+                    if pr.get("parse_ok"):
+                        self.nontrivial.add(self.digest("doc", ty, pr["text"]))
+                    st["printed_rows"] += 1
+                continue
+            row = doc_row(r, False, None)
+            faithful = bool(r.get("built_is_parsed"))
+            self.add(row, ("doc", ty, c["text"], c["_style"], ops))
+            if row["p"]:
+                self.nontrivial.add(self.digest("doc", ty, c["text"]))
+            st["doc_rows"] += 1
+            st["faithful_rendering" if faithful else "unfaithful_rendering"] += 1
+            agree = row["d"] == row["m"] and (not row["d"] or row["vd"] == row["vm"])
+            if ops and row["p"] and agree and len(self.samples) < 400:
+                self.samples.setdefault((ty, row["d"]), {"type": ty, "mutation": list(ops), "text": c["text"], "direct_accepts": row["d"],
+                                                         "via_model_accepts": row["m"], "same_value": True})
+            # the bridge fed from the value built without any text
+            if faithful and (acc(r["built"]) != row["m"] or (row["m"] and canon(r["built"]["v"]) != canon(r["via"]["v"]))):
+                self.note_drift("try_from_value(built) != try_from_value(parsed)", ty, {"text": c["text"]})
+            # M: the reference reader (models the path through the model value)
+            if faithful and agree:
+                exp = d["exp"]
+                if exp["ok"] != row["m"]:
+                    self.note_drift("Read expects %s, both real paths %s" % ("accept" if exp["ok"] else "reject", "accept" if row["m"] else "reject"),
+                                    ty, {"text": c["text"], "ops": list(ops), "obs": r.get("via"), "doc": d["doc"]})
+                elif exp["ok"]:
+                    ex = schema.key(ty, exp["x"], sg)
+                    if canon(ex) != canon(r["via"]["v"]):
+                        self.note_drift("Read expects another value", ty, {"text": c["text"], "ops": list(ops), "expected": ex, "obs": r["via"].get("v")})
+                    else:
+                        st["reference_reader_confirmed_accept"] += 1
+                else:
+                    st["reference_reader_confirmed_reject"] += 1
+            # the third source of events (informative): MessagePack of the parsed value
+            if row["p"] and (acc(r.get("mp")) != row["m"] or (row["m"] and canon(r["mp"]["v"]) != canon(r["via"]["v"]))):
+                st["msgpack_reader_differs_from_bridge"] += 1
+
+
+def evaluate(wd, chunks):
+    """TLC evaluates the laws on every row (one JVM per chunk, at most 4 at a time)."""
     res = [None] * len(chunks)
     errs = []
 
     def work(i):
         try:
             d = os.path.join(wd, "laws%d" % i)
-            os.makedirs(d, exist_ok=True)
-            tp = os.path.join(d, "table.ndjson")
-            core.write_ndjson(tp, chunks[i])
             c = core.cfg(constants={"Scope": 0, "Defects": tla_set([])}, invariants=["TypeOK"], postcondition="Report")
-            res[i] = core.run_tlc("MC_FormDoc", c, d, workers=1, depth_first=True, env={"TABLE": tp}, timeout=1500, xmx="6g",
-                                  coverage=True)
+            r = core.run_tlc("MC_FormDoc", c, d, workers=1, depth_first=True, env={"TABLE": chunks[i][0]}, timeout=1500, xmx="8g",
+                             coverage=True)
+            res[i] = r
         except Exception as ex:  # noqa
             errs.append(ex)
 
-    for b in range(0, len(chunks), 4):
-        th = [threading.Thread(target=work, args=(i,)) for i in range(b, min(b + 4, len(chunks)))]
-        for t in th:
-            t.start()
-        for t in th:
-            t.join()
+    in_threads(work, [(i,) for i in range(len(chunks))])
     if errs:
         raise errs[0]
     failed, tot = [], collections.Counter()
@@ -561,8 +578,8 @@ def evaluate(wd, rows, tier):
         if not rep:
             raise core.ToolError("MC_FormDoc printed no LAW_RESULT:\n%s" % r.stdout[-3000:])
         rep = rep[-1]
-        if rep["rows"] != len(chunks[i]):
-            raise core.ToolError("MC_FormDoc evaluated %s of %s rows" % (rep["rows"], len(chunks[i])))
+        if rep["rows"] != chunks[i][2]:
+            raise core.ToolError("MC_FormDoc evaluated %s of %s rows" % (rep["rows"], chunks[i][2]))
         failed += rep["failed"]
         for kk in ("rows", "inst", "doc", "unparsed", "both_accept", "both_reject"):
             tot[kk] += rep[kk]
@@ -577,23 +594,20 @@ def evaluate(wd, rows, tier):
 
 # ----------------------------------------------------------------------------- known findings
 
-def kf_match(f, law, inf):
-    """A finding's signature is a list of clauses {"law", "op": inst|doc, "cases": {type: regex}, "direct"?, "via"?}: the regex is
-    searched in the Recon text (doc rows) or in the canonical serde json of the instance (inst rows, and printed rows = the
-    texts the printers produced for an instance); direct / via are the
-    acceptance bits of the two reading paths that must have been observed."""
-    case = inf["case"]
-    kind = "printed" if inf.get("printer") else case["op"]
+def kf_match(f, law, kind, ty, subject, bits):
+    """A finding's signature is a list of clauses {"law", "op": inst|doc|printed, "cases": {type: regex}, "direct"?, "via"?}: the regex
+    is searched in the Recon text (doc rows) or in the canonical serde json of the instance (inst rows, and printed rows = the
+    texts the printers produced for an instance); direct / via are the acceptance bits of the two reading paths that must have
+    been observed."""
     for sig in f["signature"]:
-        if sig["law"] != law or sig["op"] != kind or case["ty"] not in sig["cases"]:
+        pattern = sig["cases"].get(ty, sig["cases"].get("*"))      # "*": any battery type
+        if sig["law"] != law or sig["op"] != kind or pattern is None:
             continue
-        subject = case.get("text") if kind == "doc" else canon(inf["x"] if kind == "printed" else case["x"])
-        if re.search(sig["cases"][case["ty"]], subject, re.S) is None:
+        if re.search(pattern, subject, re.S) is None:
             continue
-        obs = inf.get("obs") or {}
-        if "direct" in sig and acc(obs.get("direct")) != sig["direct"]:
+        if "direct" in sig and bits.get("d") != sig["direct"]:
             continue
-        if "via" in sig and acc(obs.get("via")) != sig["via"]:
+        if "via" in sig and bits.get("m") != sig["via"]:
             continue
         return True
     return False
@@ -604,106 +618,157 @@ def kf_match(f, law, inf):
 def run(tier, out):
     wd = core.workdir(PROP)
     core.build_harness(MEMBER, BIN)
-    docs, schema, gst = generate(wd, tier, out)
-    core.log("[C16] TLC generated %d distinct (type, document) pairs from %d states in %.1fs" % (len(docs), gst["states"], gst["wall"]))
-    cases = build_cases(docs, schema, tier)
-    results = harness(wd, [strip(c) for c in cases], "cases")
-    rows, info, drift, st, unfaithful = make_rows(docs, schema, cases, results, tier)
-    if unfaithful:
-        # parse(print(x)) != as_value(x): a printer / parser matter (property C09), recorded but not demanded here
-        seen = {}
-        for u in unfaithful:
-            seen.setdefault(u["ty"], u)
-        out.notes.append("PRINT-NOT-FAITHFUL (C09 matter, no C16 law demands it): %d printer outputs do not parse to as_value(x); one per type: %s" % (
-            len(unfaithful), json.dumps([{"ty": u["ty"], "x": u["x"], "text": u["text"]} for u in seen.values()])[:1500]))
-    failed, tot, cov = evaluate(wd, rows, tier)
+    seed = core.seed()
+    keys = all_keys()
+    jobs = plan(tier, keys)
+    res, errs = {}, []
+    table = Table(wd)
+    seen = set()
+    schema = None
+    gst = collections.Counter()
+    gwall = 0.0
+    probe_excuses(wd, out)
+    for b in range(0, len(jobs), GROUPS):
+        batch = jobs[b:b + GROUPS]
+        in_threads(run_gen, [(wd, j, res, errs) for j in batch])
+        if errs:
+            raise errs[0]
+        bw = 0.0
+        for j in batch:
+            r = res.pop(j["name"])
+            if not r.ok:
+                raise core.ToolError("the document model violates its own invariant %s (%s):\n%s" % (r.violated, j["name"], r.counterexample[:3000]))
+            if schema is None:
+                schema = Schema(json.loads(r.tagged["SCHEMA"][0]))
+            gst["states"] += r.distinct
+            gst["generated"] += r.generated
+            bw = max(bw, r.wall)
+            raw = r.tagged["DOC"]
+            r.tagged = None
+            # in pieces, so that memory stays bounded
+            for lo in range(0, len(raw), 40000):
+                docs = []
+                for s in raw[lo:lo + 40000]:
+                    d = json.loads(s)
+                    h = hashlib.md5((d["ty"] + "\x00" + canon(d["doc"]) + "\x00" + (canon(d["inst"]) if not d["ops"] else "")).encode()).digest()
+                    if h in seen:
+                        continue
+                    seen.add(h)
+                    d["_h"] = h.hex()[:12]
+                    docs.append(d)
+                if not docs:
+                    continue
+                cases = build_cases(docs, schema, j, seed, table.n)
+                results = harness(wd, [strip(c) for c in cases], "cases")
+                table.add_batch(docs, schema, cases, results, seed)
+                gst["documents"] += len(docs)
+            raw = None
+        gwall += bw
+    table.flush()
+    core.log("[C16] TLC generated %d distinct (type, document) pairs from %d states (generation wall %.1fs)" % (gst["documents"], gst["states"], gwall))
+    failed, tot, cov = evaluate(wd, table.chunks)
     core.log("[C16] %d rows (%d instances, %d documents; %d accepted by both paths, %d rejected by both); laws broken on %d rows; drift %d" % (
-        tot["rows"], tot["inst"], tot["doc"], tot["both_accept"], tot["both_reject"], len(failed), len(drift)))
-    report(out, tier, docs, rows, info, drift, st, failed, tot, cov, gst, wd)
+        tot["rows"], tot["inst"], tot["doc"], tot["both_accept"], tot["both_reject"], len(failed), sum(table.drift_n.values())))
+    gst["wall"] = gwall
+    report(out, tier, jobs, table, failed, tot, cov, gst, wd)
 
 
-def report(out, tier, docs, rows, info, drift, st, failed, tot, cov, gst, wd):
+def observe(wd, kind, ty, subject, extra):
+    """re-run one reported row to get the full observation"""
+    if kind == "doc":
+        case = {"id": 0, "op": "doc", "ty": ty, "text": subject}
+        return case, harness(wd, [case], "obs", parts=1)[0]
+    case = {"id": 0, "op": "inst", "ty": ty, "x": subject}
+    r = harness(wd, [case], "obs", parts=1)[0]
+    if kind == "printed" and "printed" in r:
+        pr = r["printed"][extra]
+        return case, {"printer": PRINTERS[extra], "text": pr.get("text"), "direct": pr.get("direct"), "via": pr.get("via"), "conv": pr.get("conv"),
+                      "parse_ok": pr.get("parse_ok")}
+    return case, {kk: r.get(kk) for kk in ("rt", "rtc", "mp", "into_same", "asv", "panic")}
+
+
+def report(out, tier, jobs, table, failed, tot, cov, gst, wd):
     findings = core.open_findings(PROP)
     hit = collections.Counter()
     per_sig = {}
+    rows_by_id = {}
+    # the failing rows' bits: re-read from the chunk files
+    want = {f["id"] for f in failed}
+    if want:
+        for p, first, cnt in table.chunks:
+            if any(first <= i < first + cnt for i in want):
+                for row in core.read_ndjson(p):
+                    if row["id"] in want:
+                        rows_by_id[row["id"]] = row
+    fail_log = []
+    reported = 0
     for f in failed:
-        inf = info[f["id"] - 1]
+        kind, ty, subject, extra, ops = table.info[f["id"] - 1]
+        row = rows_by_id[f["id"]]
         laws = f["laws"]
-        covering = [next((kf for kf in findings if kf_match(kf, law, inf)), None) for law in laws]
-        if not inf.get("panic") and all(k is not None for k in covering):
+        panic = isinstance(extra, str) and extra.startswith("PANIC")
+        subj = subject if kind == "doc" else canon(subject)
+        covering = [next((kf for kf in findings if kf_match(kf, law, kind, ty, subj, row)), None) for law in laws]
+        fail_log.append({"laws": laws, "kind": kind, "ty": ty, "subject": subject, "ops": list(ops), "row": row,
+                         "known": [k["id"] if k else None for k in covering]})
+        if not panic and all(k is not None for k in covering):
             for k in {k["id"]: k for k in covering}.values():
                 hit[k["id"]] += 1
                 per_sig.setdefault(k["id"], k)
             continue
-        laws = [law for law, k in zip(laws, covering) if k is None] if not inf.get("panic") else laws
-        subject = inf["case"].get("text", None)
-        what = "law %s broken for type %s on %s" % ("+".join(laws), inf["case"]["ty"],
-                                                   ("text %r" % subject) if subject is not None else ("instance %s" % canon(inf["case"]["x"])))
-        if inf.get("panic"):
-            what += " PANIC " + inf["panic"]
-        else:
-            what += " observed " + json.dumps(inf["obs"])[:600]
-        out.violation(what, {"case": inf.get("inst_case", inf["case"]), "laws": laws, "row": rows[f["id"] - 1], "observed": inf.get("obs"),
-                             "origin": {"ops": inf["doc"]["ops"], "inst": inf["doc"]["inst"]}})
+        if not panic:
+            laws = [law for law, k in zip(laws, covering) if k is None]
+        reported += 1
+        if reported > 200:
+            out.violations.append(("(further broken rows not written as replay files)", "(see %s)" % os.path.join(wd, "failed.json")))
+            break
+        case, obs = observe(wd, kind, ty, subject, extra if not panic else 0)
+        what = "law %s broken for type %s on %s" % ("+".join(laws), ty, ("text %r" % subject) if kind == "doc" else
+                                                   ("instance %s%s" % (subj, " printed by print_recon%s" % ("", "_compact", "_pretty")[extra] if kind == "printed" else "")))
+        what += (" " + extra) if panic else (" observed " + json.dumps(obs)[:600])
+        out.violation(what, {"case": case, "laws": laws, "row": row, "observed": obs, "mutation": list(ops)})
     with open(os.path.join(wd, "failed.json"), "w") as fh:
-        json.dump([{"laws": f["laws"], "ty": info[f["id"] - 1]["case"]["ty"], "case": info[f["id"] - 1]["case"],
-                    "printer": info[f["id"] - 1].get("printer"), "ops": info[f["id"] - 1]["doc"]["ops"],
-                    "obs": info[f["id"] - 1].get("obs"), "panic": info[f["id"] - 1].get("panic")} for f in failed], fh, indent=1)
-    for kid, n in hit.items():
+        json.dump(fail_log, fh, indent=1)
+    for kid, n in sorted(hit.items()):
         out.known_finding("%s (%d rows): %s" % (kid, n, per_sig[kid]["what"]))
     # model drift (notes only)
-    dk = collections.Counter((d["what"], d["ty"]) for d in drift)
     with open(os.path.join(wd, "drift.json"), "w") as fh:
-        json.dump(drift[:5000], fh, indent=1)
-    for d in drift[:3]:
+        json.dump(table.drift, fh, indent=1)
+    for d in table.drift[:3]:
         out.notes.append("MODEL-DRIFT " + json.dumps(d)[:500])
-    # statistics of the generator: documents per operator
-    per_op = collections.Counter()
-    for d in docs:
-        per_op["+".join(d["ops"]) if d["ops"] else "pick"] += 1
-    first_op = collections.Counter((d["ops"][-1] if d["ops"] else "Pick") for d in docs)
-    never = sorted(set(MUT_OPS) - set(first_op))
-    nontrivial = set()
-    for inf, row in zip(info, rows):
-        if row["kind"] == "inst":
-            nontrivial.add(("inst", inf["case"]["ty"], canon(inf["case"]["x"])))
-        elif row["p"]:
-            nontrivial.add(("doc", inf["case"]["ty"], inf["case"]["text"]))
-    out.add(evaluations=len(rows), distinct_nontrivial=len(nontrivial),
-            rule="TLC enumerates battery type x instance (small scope) x mutation operator from FormDoc.tla; each distinct (type, document) is "
+    if table.unfaithful:
+        # parse(print(x)) != as_value(x): a printer / parser matter (property C09), recorded but not demanded here
+        out.notes.append("PRINT-NOT-FAITHFUL (C09 matter, no C16 law demands it): %d printer outputs do not parse to as_value(x); one per type: %s" % (
+            table.stats["printer_output_not_the_model"], json.dumps(list(table.unfaithful.values()))[:1500]))
+    never = sorted(set(MUT_OPS) - set(table.last_op))
+    out.add(evaluations=table.n, distinct_nontrivial=len(table.nontrivial),
+            rule="TLC enumerates battery type x instance (small scope) x mutation operator(s) from FormDoc.tla; each distinct (type, document) is "
                  "concretised from seeded boundary pools and rendered in up to %d Recon styles; one evaluation = one row of observations of the real "
                  "code on which TLC evaluates the laws.  distinct_nontrivial = distinct typed instances + distinct (type, text) pairs that parse as a model "
-                 "value (so that both reading paths really ran), counted by hashing" % len(tier_cfg(tier)["styles"]),
-            battery_types=len(set(d["ty"] for d in docs)), documents=len(docs),
+                 "value (so that both reading paths really ran), counted by hashing" % len(ALL_STYLES),
+            battery_types=len(all_keys()), documents=gst["documents"],
+            gen_jobs=[{kk: (list(v) if isinstance(v, tuple) else v) for kk, v in j.items()} for j in jobs],
             gen_states=gst["states"], gen_transitions=gst["generated"], gen_wall_s=round(gst["wall"], 1),
             law_states=tot["states"], law_transitions=tot["transitions"], law_wall_s=round(tot["wall"], 1),
             law_action_coverage={a: {"distinct": d, "taken": t} for a, (d, t) in cov.items()},
-            documents_per_last_operator=dict(first_op), actions_never_taken=never,
+            documents_per_last_operator=dict(table.last_op), actions_never_taken=never,
             rows_instance=tot["inst"], rows_document=tot["doc"], accepted_by_both=tot["both_accept"], rejected_by_both=tot["both_reject"],
             unparseable_texts=tot["unparsed"], laws_broken_rows=len(failed), known_finding_rows=sum(hit.values()),
-            model_drift=len(drift), model_drift_kinds={"%s [%s]" % k: n for k, n in dk.most_common(12)},
-            harness_stats=dict(st),
+            model_drift=sum(table.drift_n.values()), model_drift_kinds={"%s [%s]" % k: n for k, n in table.drift_n.most_common(12)},
+            harness_stats=dict(table.stats),
             checker_cmd="tlc Gen_FormDoc (INVARIANTS %s) + h_core form + tlc MC_FormDoc (laws of FormDoc.tla section 7)" % " ".join(GEN_INVS))
-    shown, types_shown = 0, set()
-    for inf, row in zip(info, rows):
-        ty = inf["case"]["ty"]
-        if row["kind"] == "doc" and inf["doc"]["ops"] and row["p"] and shown < 4 and (shown % 2 == 0) == row["d"] and ty not in types_shown \
-                and row["d"] == row["m"]:
-            out.sample({"type": ty, "mutation": inf["doc"]["ops"], "text": inf["case"]["text"], "direct_accepts": row["d"],
-                        "via_model_accepts": row["m"], "same_value": row["vd"] == row["vm"]})
-            shown += 1
-            types_shown.add(ty)
-    for inf, row in zip(info, rows):
-        if row["kind"] == "inst" and inf["case"]["ty"] == "HdrBoth":
-            out.sample({"type": inf["case"]["ty"], "instance": inf["case"]["x"], "as_value": inf["obs"]["asv"], "row": row})
-            break
+    picks = [("HdrBoth", True), ("Shape", False), ("BodyNest", True), ("TwoAttrs", False)]
+    for k in picks:
+        if k in table.samples:
+            out.sample(table.samples[k])
+    if "HdrBoth" in table.samples:
+        out.sample(table.samples["HdrBoth"])
+    if not out.cov["samples"]:
+        for k, v in list(table.samples.items())[:3]:
+            out.sample(v)
     out.assumptions += ["serde_json renderings of the typed values are injective (used as value identity)",
                         "the Recon parser's Value output for a text is the 'model' of that text (C09 covers the parser itself)",
                         "scope: instances and mutations at small scope from FormDoc.tla; leaves from fixed boundary pools"]
-
-
-MUT_OPS = ["dropItem", "dupItem", "swapItems", "dropAttr", "dupAttr", "swapAttrs", "wrongTag", "extraAttr", "extraItem", "renameKey",
-           "unslot", "slotify", "wrongKind", "wrap", "unwrap"]
 
 
 def replay(path, out):
@@ -715,23 +780,21 @@ def replay(path, out):
     r = harness(wd, [case], "replay", parts=1)[0]
     print("case:", json.dumps(case)[:2000])
     print("observed:", json.dumps(r)[:4000])
-    ids = Interner()
-    rows = []
     if r.get("panic"):
         print("VIOLATION property=%s replay=%s" % (PROP, path))
         return 1
+    rows = []
     if case["op"] == "inst":
-        vx = ids.id(r["x"])
-        eq = lambda o: acc(o) and ids.id(o["v"]) == vx
-        rows.append({"kind": "inst", "rt": acc(r["rt"]), "rt_eq": eq(r["rt"]), "rtc": acc(r["rtc"]), "rtc_eq": eq(r["rtc"]) and r["into_same"],
-                     "mp": acc(r["mp"]), "mp_eq": eq(r["mp"]) and r.get("mp_rest", 0) == 0})
+        rows.append(inst_row(r))
         for pr in r["printed"]:
-            rows.append(doc_row(pr, ids, bool(pr.get("val_is_asv")), vx))
+            rows.append(doc_row(pr, bool(pr.get("val_is_asv")), r["x"]))
     else:
-        rows.append(doc_row(r, ids, False, 0))
+        rows.append(doc_row(r, False, None))
     for i, row in enumerate(rows):
         row["id"] = i + 1
-    failed, tot, cov = evaluate(wd, rows, "quick")
+    tp = os.path.join(wd, "table0.ndjson")
+    core.write_ndjson(tp, rows)
+    failed, tot, cov = evaluate(wd, [(tp, 1, len(rows))])
     print("laws broken:", json.dumps(failed))
     if failed:
         print("VIOLATION property=%s replay=%s" % (PROP, path))
